@@ -1,3 +1,4 @@
 pub mod val;
 pub mod bytes;
 pub mod near;
+pub mod small;
